@@ -22,6 +22,9 @@ func blockAlphabet(level int) []stmt {
 		sCond{bin(">", fld("a"), lit(1)), []stmt{asg(fld("big"), lit(true))}},
 		sFilter{bin("!=", fld("a"), lit(2))},
 		sFilter{lit(false)},
+		// a filter statement that is executed for some records only: it must decide about that record alone
+		sCond{nrEq(1), []stmt{sFilter{lit(false)}}},
+		sCond{nrEq(2), []stmt{sFilter{lit(true)}}},
 		sBare{bin("==", fld("a"), lit(1))},
 		sCond{nrEq(2), []stmt{sUnset{[]expr{c}}}},
 		sCond{nrEq(3), []stmt{sUnset{[]expr{eOosAll{}}}}},
@@ -56,6 +59,15 @@ func hasFilterStmt(ss []stmt) bool {
 	return false
 }
 
+func hasConditionalFilter(ss []stmt) bool {
+	for _, s := range ss {
+		if c, ok := s.(sCond); ok && hasFilterStmt(c.body) {
+			return true
+		}
+	}
+	return false
+}
+
 func genBlocksFamily(a progArgs, emit func(func() *progCase)) {
 	al := blockAlphabet(a.Level)
 	var rec func(n int, prefix []stmt)
@@ -67,7 +79,11 @@ func genBlocksFamily(a progArgs, emit func(func() *progCase)) {
 				if o.x && !hasFilterStmt(p) {
 					continue
 				}
-				emit(func() *progCase { return &progCase{family: "blocks", size: len(p), top: p, opts: o} })
+				cause := ""
+				if hasConditionalFilter(p) {
+					cause = "filter-statement-on-some-records-only"
+				}
+				emit(func() *progCase { return &progCase{family: "blocks", size: len(p), top: p, opts: o, cause: cause} })
 			}
 		}
 		if n == 0 {
